@@ -548,7 +548,8 @@ func DaemonSet(t *rapid.T, i int) *appsv1.DaemonSet {
 // existing nodes
 // ---------------------------------------------------------------------------------------------------------------------
 
-func availableOptions(cat []sim.ITSpec) []sim.LaunchOption {
+// AvailableOptions lists every (type, non-reserved offering) pair of the catalog.
+func AvailableOptions(cat []sim.ITSpec) []sim.LaunchOption {
 	var out []sim.LaunchOption
 	for _, it := range cat {
 		for _, of := range it.Offerings {
@@ -563,7 +564,7 @@ func availableOptions(cat []sim.ITSpec) []sim.LaunchOption {
 
 func Node(t *rapid.T, i int, cat []sim.ITSpec, pools []*v1.NodePool, k Knobs) sim.NodeSpec {
 	l := fmt.Sprintf("node%d", i)
-	opts := availableOptions(cat)
+	opts := AvailableOptions(cat)
 	if len(opts) == 0 || pct(t, 15, l+"_unmanaged") {
 		n := sim.NodeSpec{Name: fmt.Sprintf("unmanaged-%d", i), Allocatable: map[string]string{"cpu": pick(t, cpuLat, l+"_cpu"), "memory": pick(t, memLat, l+"_mem"), "pods": pick(t, podsLat, l+"_pods")},
 			Labels: map[string]string{corev1.LabelArchStable: "amd64", corev1.LabelOSStable: "linux"}}
